@@ -665,12 +665,12 @@ type modelRow struct {
 }
 
 type fixture struct {
-	spec    *fixtureSpec
-	base    time.Time
-	ifByID  map[uint16]ifSpec
-	intfs   *ifstate.Interfaces
-	db      *sqlite.Backend
-	store   interface {
+	spec   *fixtureSpec
+	base   time.Time
+	ifByID map[uint16]ifSpec
+	intfs  *ifstate.Interfaces
+	db     *sqlite.Backend
+	store  interface {
 		beaconing.BeaconInserter
 		beaconing.BeaconProvider
 	}
